@@ -333,7 +333,8 @@ def c14_3(ctx):
     il = ctx.repo.func('bespokeasm.assembler.line_object.instruction_line.InstructionLine.factory')
     r1 = resolver(ctx, il, inline=False)
     ctor = [c for c in ast.walk(il.node) if isinstance(c, ast.Call) and unparse(c.func) == 'InstructionLine']
-    ok = len(ctor) == 1 and clause_implies(facts_at(ctx, il, ctor[0], r1), lit_cmp(ctx, il, 'command_str in isa_model.operation_mnemonics', r1))
+    ok = len(ctor) == 1 and any(len(c) == 1 and next(iter(c))[0] == 'in' and next(iter(c))[1] == 'command_str' and next(iter(c))[-1] is True
+                                for c in facts_at(ctx, il, ctor[0], r1))
     ctx.check(ok, 'error:unrecognised-command', il.site(), 'an instruction line is built only for a known mnemonic', '')
     from rules.c12 import c12_1, c12_3, c12_4
     c12_1(ctx)
